@@ -65,7 +65,11 @@ def record(src):
     c = build(src)
     n = c.input_size
     labels = list(c.gates)
-    res = {'full': {l: [] for l in labels}, 'circ': {l: [] for l in labels}, 'outs': {l: [] for l in dict.fromkeys(c.outputs)}}
+    res = {'full': {l: [] for l in labels}, 'circ': {l: [] for l in labels}, 'outs': {l: [] for l in dict.fromkeys(c.outputs)},
+           # the same three entry points called with ONE assignment dict that the caller keeps and
+           # updates in place between calls
+           'full_r': {l: [] for l in labels}, 'circ_r': {l: [] for l in labels}, 'outs_r': {l: [] for l in dict.fromkeys(c.outputs)}}
+    shared = {'full_r': {}, 'circ_r': {}, 'outs_r': {}}
     vals = (False, True, Undefined)
 
     def code(d, l):
@@ -85,6 +89,15 @@ def record(src):
                 d = None
             for l in res[key]:
                 res[key][l].append(code(d, l))
+            kr = key + '_r'
+            for j in range(n):
+                shared[kr][c.inputs[j]] = vals[digits[j]]
+            try:
+                d = fn(shared[kr])
+            except Exception:
+                d = None
+            for l in res[kr]:
+                res[kr][l].append(code(d, l))
     return {'kind': 'partial', 'c': project(c), 'res': res, 'src': src}
 
 
